@@ -905,6 +905,73 @@ func Done() (err error) {
 }
 `
 
+// readingOf: the "reading:" verdict of the launch extractor for a source
+func readingOf(t *testing.T, src string) string {
+	t.Helper()
+	dir := t.TempDir()
+	os.MkdirAll(filepath.Join(dir, "daemon"), 0o755)
+	os.WriteFile(filepath.Join(dir, "daemon", "daemon.go"), []byte(src), 0o644)
+	out := filepath.Join(dir, "out.txt")
+	f, _ := os.Create(out)
+	saved := os.Stdout
+	os.Stdout = f
+	err := cmdLaunch(dir)
+	os.Stdout = saved
+	f.Close()
+	if err != nil {
+		t.Fatal(err)
+	}
+	b, _ := os.ReadFile(out)
+	for _, l := range strings.Split(string(b), "\n") {
+		if strings.HasPrefix(l, "(* reading: ") {
+			return strings.TrimSuffix(strings.TrimPrefix(l, "(* reading: "), " *)")
+		}
+	}
+	return "?"
+}
+
+func TestLaunchReading(t *testing.T) {
+	if r := readingOf(t, launchFixed); r != "complete" {
+		t.Errorf("fixed order: reading %q", r)
+	}
+	for name, src := range map[string]string{
+		"start before notify": strings.Replace(strings.Replace(launchFixed, "\tinterrupt := make(chan os.Signal, 1)\n\tsignal.Notify(interrupt, os.Interrupt)\n\tdefer signal.Stop(interrupt)\n", "", 1),
+			"\tselect {", "\tinterrupt := make(chan os.Signal, 1)\n\tsignal.Notify(interrupt, os.Interrupt)\n\tdefer signal.Stop(interrupt)\n\tselect {", 1),
+		"unbuffered":         strings.Replace(launchFixed, "make(chan os.Signal, 1)", "make(chan os.Signal)", 1),
+		"timer":              strings.Replace(launchFixed, "\tcase <-interrupt:\n", "\tcase <-interrupt:\n\tcase <-time.After(time.Second):\n", 1),
+		"timer var":          strings.Replace(strings.Replace(launchFixed, "\tselect {", "\tgrace := time.NewTimer(3 * time.Second)\n\tselect {", 1), "\tcase <-interrupt:\n", "\tcase <-interrupt:\n\tcase <-grace.C:\n", 1),
+		"default":            strings.Replace(launchFixed, "\tcase <-interrupt:\n", "\tcase <-interrupt:\n\tdefault:\n", 1),
+		"stop before select": strings.Replace(launchFixed, "\tdefer signal.Stop(interrupt)\n", "\tsignal.Stop(interrupt)\n", 1),
+		"signal mismatch":    strings.Replace(launchFixed, "p.Signal(os.Interrupt)", "p.Signal(syscall.SIGTERM)", 1),
+		"uncatchable":        strings.Replace(strings.Replace(launchFixed, "p.Signal(os.Interrupt)", "p.Signal(os.Kill)", 1), "signal.Notify(interrupt, os.Interrupt)", "signal.Notify(interrupt, os.Kill)", 1),
+		"no waiter at all":   strings.Replace(launchFixed, "\tgo func() {\n\t\tif err := cmd.Wait(); err != nil {\n\t\t\tos.Stderr.Write([]byte(\"daemon: \" + err.Error()))\n\t\t}\n\t\tclose(finished)\n\t}()\n", "", 1),
+	} {
+		if r := readingOf(t, src); !strings.HasPrefix(r, "wrong: ") {
+			t.Errorf("%s: must be read as wrong, got %q", name, r)
+		}
+	}
+	// any catchable signal, used consistently (battery 4, rewrite 11)
+	usr1 := strings.Replace(strings.Replace(launchFixed, "p.Signal(os.Interrupt)", "p.Signal(handshake)", 1), "signal.Notify(interrupt, os.Interrupt)", "signal.Notify(interrupt, handshake)", 1) +
+		"\nconst handshake = syscall.SIGUSR1\n"
+	if r := readingOf(t, usr1); r != "complete" {
+		t.Errorf("SIGUSR1 used consistently: reading %q", r)
+	}
+	if got := runLaunch(t, usr1); got != "[ANotify; AStart; AWritePid; ASpawnWait; ASelect]" {
+		t.Errorf("SIGUSR1 used consistently: %s", got)
+	}
+	// unreadable shapes: incomplete, not wrong
+	for name, src := range map[string]string{
+		"os.StartProcess":      strings.Replace(launchFixed, "cmd.Start()", "startWith(os.StartProcess)", 1),
+		"select on a call":     strings.Replace(launchFixed, "\tcase <-finished:\n", "\tcase <-watch(cmd):\n", 1),
+		"unknown call":         strings.Replace(launchFixed, "\tverifPause(", "\tprepare()\n\tverifPause(", 1),
+		"NotifyContext parent": strings.Replace(launchFixed, "\tsignal.Notify(interrupt, os.Interrupt)\n", "\tover, stop := signal.NotifyContext(parentCtx, os.Interrupt)\n\t_, _ = over, stop\n", 1),
+	} {
+		if r := readingOf(t, src); r != "incomplete" {
+			t.Errorf("%s: must be read as incomplete, got %q", name, r)
+		}
+	}
+}
+
 func runLaunch(t *testing.T, src string) string {
 	t.Helper()
 	dir := t.TempDir()
@@ -968,7 +1035,7 @@ func TestLaunch(t *testing.T) {
 	// seeded C20d / grace timers: a select case on anything but the two channels
 	for _, c := range []string{"\tcase <-time.After(100 * time.Millisecond):\n", "\tcase <-grace.C:\n", "\tdefault:\n"} {
 		timer := strings.Replace(launchFixed, "\tcase <-interrupt:\n", "\tcase <-interrupt:\n"+c, 1)
-		if got := runLaunch(t, timer); !strings.Contains(got, `AUnknown "select case`) || strings.Contains(strings.ReplaceAll(got, "missing ASelect", ""), "ASelect") {
+		if got := runLaunch(t, timer); !strings.Contains(got, "select case") || strings.Contains(strings.ReplaceAll(got, "missing ASelect", ""), "ASelect") {
 			t.Errorf("select with %q must be unknown: %s", c, got)
 		}
 	}
@@ -987,7 +1054,7 @@ func TestLaunch(t *testing.T) {
 	}
 	// a non-deferred signal.Stop before the select
 	stop := strings.Replace(launchFixed, "\tdefer signal.Stop(interrupt)\n", "\tsignal.Stop(interrupt)\n", 1)
-	if got := runLaunch(t, stop); !strings.Contains(got, `AUnknown "call signal.Stop`) {
+	if got := runLaunch(t, stop); !strings.Contains(got, `AUnknown "WRONG: signal.Stop before`) {
 		t.Errorf("non-deferred signal.Stop must be unknown: %s", got)
 	}
 	// harmless: pid written after the select
@@ -1081,7 +1148,7 @@ func Done() error { p, _ := os.FindProcess(os.Getppid()); return p.Signal(os.Int
 	// still alarms: a helper that touches os/exec in an unknown way, a timer in an inlined helper, cmd.Stderr set
 	for _, m := range []struct{ old, new, want string }{
 		{"\tawaitDone(cmd, interrupt)\n", "\tcmd.Process.Kill()\n\tawaitDone(cmd, interrupt)\n", `AUnknown "call cmd.Process.Kill`},
-		{"\tcase <-intr:\n", "\tcase <-intr:\n\tcase <-time.After(time.Second):\n", `AUnknown "select case <-time.After()`},
+		{"\tcase <-intr:\n", "\tcase <-intr:\n\tcase <-time.After(time.Second):\n", `select case on a timer <-time.After()`},
 		{"\tif err := cmd.Start(); err != nil {\n\t\treturn nil, err", "\tcmd.Stderr = os.Stderr\n\tif err := cmd.Start(); err != nil {\n\t\treturn nil, err", `AUnknown "field Stderr`},
 	} {
 		if got := runLaunch(t, strings.Replace(d3, m.old, m.new, 1)); !strings.Contains(got, m.want) {
